@@ -194,6 +194,36 @@ pub fn split_query(q: &Value) -> (Value, Value) {
   }
 }
 
+/// does the query score the same word in two places (two `term` clauses or twice in a query string)?
+pub fn repeated_term(q: &Value) -> bool {
+  fn words(q: &Value, out: &mut Vec<String>) {
+    match q {
+      Value::Object(m) => {
+        match m.get("type").and_then(|t| t.as_str()) {
+          Some("term") => out.push(format!("{}:{}", m.get("field").and_then(|f| f.as_str()).unwrap_or(""), m.get("value").and_then(|f| f.as_str()).unwrap_or(""))),
+          Some("query_string") => {
+            for w in m.get("query").and_then(|f| f.as_str()).unwrap_or("").split_whitespace() {
+              out.push(format!("qs:{w}"));
+            }
+          }
+          _ => {}
+        }
+        for v in m.values() {
+          words(v, out);
+        }
+      }
+      Value::Array(a) => a.iter().for_each(|v| words(v, out)),
+      _ => {}
+    }
+  }
+  let mut ws = Vec::new();
+  words(q, &mut ws);
+  let n = ws.len();
+  ws.sort();
+  ws.dedup();
+  ws.len() < n
+}
+
 pub fn has_hook(q: &Value) -> bool {
   match q {
     Value::Object(m) => {
@@ -289,6 +319,11 @@ fn plain_q(rng: &mut Rng, vocab: usize, boosted: bool, dis_max: bool) -> Value {
   let mut ws: Vec<&str> = WORDS[..vocab].to_vec();
   rng.shuffle(&mut ws);
   let n = (if rng.chance(1, 6) { 1 } else { 2 + rng.below(2) }).min(ws.len());
+  // the same term scored by two clauses (one scored term per (term key, leaf) since 458e503)
+  if n >= 2 && rng.chance(1, 4) {
+    let j = 1 + rng.below(n - 1);
+    ws[j] = ws[0];
+  }
   if dis_max {
     let kids: Vec<Value> = ws[..n].iter().map(|w| term_q(rng, w, true)).collect();
     let tie = *rng.pick(&[0.0, 0.3, 1.0]);
@@ -401,7 +436,7 @@ impl Prop for C09 {
     "C09"
   }
   fn rule(&self) -> &'static str {
-    "case = (1-3 segments of random documents over a 3-8 word vocabulary with heavy-tailed term frequencies, optional deletes, one scored query of kind plain|boosted|dis_max|function_score|script_score|rank_feature, limit 1..50, bmw_block_size 1..300 or default); size classes tiny (8-60 docs, block size 1-3, limit 1-5), medium (60-250 docs), long (posting lists of 400-1200 entries); every case runs execution=bm25, wand and bmw on one reader; non-trivial = some segment has more accepted candidates than limit+1 (the heap fills and pruning decisions are taken); distinct = distinct case JSON"
+    "case = (1-3 segments of random documents over a 3-8 word vocabulary with heavy-tailed term frequencies, optional deletes, one scored query of kind plain|boosted|dis_max|function_score|script_score|rank_feature (in a quarter of the multi-term queries the same term is scored by two clauses), limit 1..50, bmw_block_size 1..300 or default); size classes tiny (8-60 docs, block size 1-3, limit 1-5), medium (60-250 docs), long (posting lists of 400-1200 entries); every case runs execution=bm25, wand and bmw on one reader; non-trivial = some segment has more accepted candidates than limit+1 (the heap fills and pruning decisions are taken); distinct = distinct case JSON"
   }
   fn count(&self, tier: Tier) -> usize {
     tier.pick(300, 20000)
@@ -481,6 +516,9 @@ impl Prop for C09 {
     s.count(&format!("class.{}", case["class"].as_str().unwrap_or("?")));
     if !deletes.is_empty() {
       s.count("with_deletes");
+    }
+    if repeated_term(&case["query"]) {
+      s.count("term_scored_by_two_clauses");
     }
     // ---- run the implementation three times
     let mut imp: Vec<(&str, Option<Ranking>)> = Vec::new();
